@@ -7,6 +7,11 @@ ROOT = Path(__file__).resolve().parent.parent
 ALL = ["C%02d" % i for i in range(1, 21)]
 
 CHECKS = {
+    "C05": {
+        "technique": "Lean 4 proof (twin theorems: asyncstdlib model vs CPython-algorithm model equal on the whole visible event log for every world) + model/implementation and spec/stdlib correspondence",
+        "text": "For filter, filterfalse, enumerate, takewhile, starmap, accumulate, batched, pairwise, zip, zip(strict), map, zip_longest, iter(callable, sentinel), all, any: Lean theorems C05_<tool> state that in EVERY world (every input script incl. faults, every number of consumer steps, every consumer ending) the model of asyncstdlib's code and the model of the CPython algorithm produce the same outcome and the same interleaved log of pulls, end-of-source detections, callable invocations with arguments/results and yields. dropwhile, islice, cycle, chain, compress are modelled and correspondence-checked but their twin theorems are not proved yet (lock-step inductions); merge is not modelled yet. Both models are tied on every run: asyncstdlib vs Impl model and real itertools/builtins vs Std model, event for event, over all tools x parameter grid x all item sequences (L<=3/4) x every consumer cut point, plus random cases.",
+        "note": "Trusted: Lean kernel; axioms propext/Quot.sound; the Std twins are hand-written from CPython 3.12 C sources and validated only by sampling against the real stdlib; the reference for batched is the 3.13 algorithm (3.12.1 polls the exhausted iterator once more after a short final batch). Pulls of real list arguments are unobservable and excluded. Tools without a proved twin are covered by correspondence + direct oracle only.",
+    },
     "C14": {
         "technique": "Lean 4 proof (induction on the stack; invariant by induction over histories) + model/implementation correspondence",
         "text": "Lean theorems over a model of ExitStack.__aexit__/push/callback/enter_context/pop_all/aclose: unwinding equals nested async-with for every stack, behaviour and block outcome (C14_nested, C14_order, C14_callback_cannot_suppress); every registered exit runs at most once over every history, failed enters are never exited, pop_all moves exits (C14_once, C14_only_registered, C14_ran_is_gone, C14_popAll, C14_unwind_again). The model is tied to /repo on every run by executing model, real ExitStack, literally nested async-with and contextlib.AsyncExitStack on the same enumerated/random stacks and histories.",
